@@ -22,7 +22,7 @@ PROPS = {
     "C01": dict(
         level="model_checking",
         technique="stateless model checking of the verbatim Mutex sources under a controlled scheduler: all schedules within preemption/deviation bounds (CHESS-style iterative context bounding), happens-before race detection",
-        steps=[_s("h-sync", "c01"), _s("h-sync", "futexconf"),
+        steps=[_s("h-sync", "c01"), _s("h-sync", "futexconf"), _s("h-sync", "traits-c01"),
                _s("h-sync", "c01", bin="h-sync-wide", features=["wide"], name="c01-many-threads")],
         assumptions=["SC interleavings + C11 release/acquire happens-before (vector clocks); W-bounded stale reads only in the thorough tier",
                      "the futex model (wait compares atomically, wake picks any waiter, spurious returns) stands in for the kernel; bound by the futexconf step",
@@ -32,7 +32,7 @@ PROPS = {
     "C02": dict(
         level="model_checking",
         technique="stateless model checking of the verbatim RwLock sources under a controlled scheduler: all schedules within preemption/deviation bounds, every wake target and hand-off branch, happens-before race detection",
-        steps=[_s("h-sync", "c02"), _s("h-sync", "futexconf"),
+        steps=[_s("h-sync", "c02"), _s("h-sync", "futexconf"), _s("h-sync", "traits-c02"),
                _s("h-sync", "c02", bin="h-sync-wide", features=["wide"], name="c02-many-threads")],
         assumptions=["same execution model as C01", "bounds: <=4 threads, <=2 ops per thread"],
     ),
